@@ -4,9 +4,9 @@ CONSTANTS
   MaxHead = 3
   MaxSlots = 3
   MaxTx = 2
-  MaxUpd = 6
+  MaxUpd <- Unbounded
   MaxViews = 1
-  MaxEnv = 3
+  MaxEnv <- Unbounded
   Blank <- MCBlank
   SK <- MCSK
   C2All <- MCC2All
